@@ -372,6 +372,13 @@ func (g *routerGen) badRoute(existing []*Sx) *Sx {
 	if len(existing) > 0 { // duplicate of an existing route (or of its short form)
 		r := existing[rng.Intn(len(existing))]
 		segs := r.Args()
+		if last := segs[len(segs)-1]; rng.Intn(3) == 0 && len(last.Args()) > 1 {
+			// the same route with the optional marker flipped on its last segment: "/a/b" vs "/a/?b"
+			flip := B(last.Args()[0].Atom != "1")
+			alt := append([]*Sx{}, segs[:len(segs)-1]...)
+			alt = append(alt, T("seg", append([]*Sx{flip}, last.Args()[1:]...)...))
+			return T("route", alt...)
+		}
 		if segs[len(segs)-1].Args()[0].Atom == "1" && len(segs) > 1 && rng.Intn(2) == 0 {
 			return T("route", segs[:len(segs)-1]...)
 		}
@@ -535,6 +542,8 @@ func (g *routerGen) reqHeaders() []*Sx {
 	for _, n := range []string{"X-K", "User-Agent", "Accept"} {
 		if rng.Intn(2) == 0 {
 			out = append(out, T("h", X(n), X([]string{"v", "", "12", "a", "ab", "xvx", "b"}[rng.Intn(7)])))
+		} else if rng.Intn(12) == 0 {
+			out = append(out, T("h", X(n), A("novalues"))) // the key is in the header map with an empty list of values
 		}
 	}
 	return out
@@ -616,6 +625,18 @@ func genRouter(profile string) func(rng *rand.Rand, n int, tier string, emit fun
 						}
 						if rng.Intn(6) == 0 {
 							m = []string{"", "get", "FOO", "G E T", "\x00", "PROPFIND"}[rng.Intn(6)]
+						}
+					}
+					if (profile == "C07" || profile == "C10") && rng.Intn(25) == 0 {
+						// method and path must be told apart: "" + "GET/a", "G" + "ET/a", "GET/a" + "" are not GET /a
+						t := routeText(accepted[rng.Intn(len(accepted))])
+						switch rng.Intn(3) {
+						case 0:
+							m, p = "", "GET"+t
+						case 1:
+							m, p = "G", "ET"+t
+						default:
+							m, p = "GET"+t, ""
 						}
 					}
 					ops = append(ops, T("req", X(m), X(p), T("hdrs", g.reqHeaders()...)))
@@ -772,7 +793,11 @@ func runRouter(in *Sx) *Sx {
 				rr.chains = 0
 				hdr := http.Header{}
 				for _, h := range a[2].Args() {
-					hdr.Set(h.Args()[0].Bytes(), h.Args()[1].Bytes())
+					if h.Args()[1].Atom == "novalues" {
+						hdr[http.CanonicalHeaderKey(h.Args()[0].Bytes())] = []string{}
+					} else {
+						hdr.Set(h.Args()[0].Bytes(), h.Args()[1].Bytes())
+					}
 				}
 				req := &http.Request{Method: a[0].Bytes(), URL: &url.URL{Path: a[1].Bytes()}, Header: hdr, Proto: "HTTP/1.1"}
 				w := &wireWriter{hdr: http.Header{}}
